@@ -320,7 +320,7 @@ def boundary_ids(h):
     """ids at the live bucket boundaries (distance d -> own ^ d)"""
     res = []
     for b in h.rt.buckets[:40]:
-        for d in (b.range_min, b.range_max - 1, b.range_min + (b.range_max - b.range_min) // 2 - 1):
+        for d in (b.range_min, b.range_max - 1, b.range_max, b.range_min + (b.range_max - b.range_min) // 2 - 1):
             if 0 < d < FULL:
                 res.append((h.own_int ^ d).to_bytes(48, "big"))
     return res
